@@ -746,7 +746,12 @@ func VirtualColCustomVariables(_ *Peer, row *DataRow, _ *Column) interface{} {
 	values := row.dataStringList[valuesCol.Index]
 	res := make(map[string]string, len(names))
 	for i := range names {
-		res[names[i]] = values[i]
+		// a backend may send less values than names
+		if i < len(values) {
+			res[names[i]] = values[i]
+		} else {
+			res[names[i]] = ""
+		}
 	}
 
 	return res
